@@ -15,6 +15,7 @@ import re
 
 from engine import RuleSet
 from hir import strip, pat_str, macro_body_tokens
+from hir import pat_variants as pat_variants_
 from qq import quote_sites, QUOTE_MACROS
 
 RULES = RuleSet("C02", "§3 C02 / C04 / C05",
@@ -1550,3 +1551,72 @@ def r2_6(rep):
 def re_search_lossy(s):
     import re as _re
     return _re.search(r"::(skip|take|filter|step_by|take_while|skip_while)\(", s) is not None
+
+
+# ---------------------------------------------------------------------------------------------------------
+# R2.7 / R2.8  (added after round 3 of the seeded changes)
+# ---------------------------------------------------------------------------------------------------------
+@RULES.rule("R2.7", "a record found to be packed is emitted packed: the decision is only ever strengthened on its way to `repr`", floor=3)
+def r2_7(rep):
+    """`CompInfo::is_packed` is the only place that knows `__attribute__((packed))` / `#pragma pack`; `CompInfo::codegen` may add
+    `packed` (alignment 1 that repr(C) cannot express) but must not take it away for some representation: a Rust `union` under
+    `#pragma pack(2)` keeps natural alignment otherwise (C: size 10 align 2; bindings: size 16 align 8, every enclosing offset
+    wrong)."""
+    prog = rep.prog
+    b = rep.need(prog.impl_fn("codegen::CodeGenerator", "ir::comp::CompInfo", "codegen"), "<CompInfo as CodeGenerator>::codegen")
+    lets = [n for n in b.nodes if n["k"] == "Let" and n["pat"].get("k") == "Bind" and n.get("init") is not None and
+            callee_of(strip(n["init"])).endswith("CompInfo::is_packed")]
+    rep.need(len(lets) == 1, "`let packed = self.is_packed(..)` in CompInfo::codegen")
+    lid = lets[0]["pat"]["id"]
+    init = strip(lets[0]["init"])
+    d0 = b.local_def.get(strip(init["recv"]).get("id")) if strip(init["recv"]).get("k") == "Local" else None
+    rep.check(bool(d0) and d0[0][0] == "param" and d0[0][1] == 0, "packed:asked-of-self", "is_packed is asked of the record being generated", b.loc(init))
+    asg = [n for n in b.nodes if n["k"] in ("Assign", "AssignOp") and strip(n["l"]).get("k") == "Local" and strip(n["l"])["id"] == lid]
+    weaker = [n for n in asg if not (n["k"] == "Assign" and strip(n["r"]).get("k") == "Lit" and strip(n["r"]).get("v") is True) and
+              not (n["k"] == "AssignOp" and n["op"] in ("|", "|=", "BitOr"))]
+    rep.check(not weaker, "packed:only-strengthened", "%d assignment(s) to the packed flag, all `= true`" % len(asg) if not weaker else
+              "the packed flag is overwritten with `%s`: a record that is packed in C can be emitted without `packed`" % b.canon(weaker[0]["r"], 3)[:60],
+              b.loc(weaker[0]) if weaker else b.loc(lets[0]))
+    # the flag is what selects repr(C, packed..)
+    sites = [c for c in b.calls(lambda n: n["k"] == "Call" and callee_of(n).endswith("attributes::repr_list"))
+             if any(x["k"] == "Lit" and isinstance(x.get("v"), str) and "packed" in x["v"] for x in b.walk(c)) or
+             any(x["k"] == "Local" and b.local_init(x["id"]) is not None and "packed" in b.canon(b.local_init(x["id"]), 6) for x in b.walk(c))]
+    okr = False
+    for c in sites:
+        for pol, kind, g in b.guards(c):
+            if kind == "cond" and pol:
+                todo = [strip(g)]
+                while todo:
+                    e = todo.pop()
+                    if e.get("k") == "Binary" and e["op"] == "&&":
+                        todo += [strip(e["l"]), strip(e["r"])]
+                    elif e.get("k") == "Local" and e["id"] == lid:
+                        okr = True
+    rep.check(okr, "packed:selects-repr", "`repr(C, packed[(N)])` is emitted under the packed flag", b.loc(sites[0]) if sites else b.loc(b.root))
+
+
+@RULES.rule("R2.8", "typedef names that bindgen maps to Rust primitives keep their width and signedness", floor=13)
+def r2_8(rep):
+    """`utils::type_from_named` short-cuts `int32_t`, `size_t`, `ssize_t`, … to Rust primitives by NAME.  The table has to agree
+    with C: `ssize_t` is signed (`isize`); merging it into the `size_t` arm makes a `-1` stored by C read back as
+    18446744073709551615 through the bindings while size, alignment and offsets still match."""
+    prog = rep.prog
+    t = rep.need(prog.fn("codegen::utils::type_from_named"), "utils::type_from_named")
+    want = {k: v for k, v in ORACLE["named_typedefs"].items() if not k.startswith("_")}
+    ms = [n for n in t.walk() if n["k"] == "Match"]
+    rep.need(ms, "the name table of type_from_named")
+    seen = {}
+    for a in ms[0]["arms"]:
+        names = [v[4:].strip("'\"") for v in pat_variants_(a["pat"]) if v.startswith("lit:")]
+        if not names:
+            continue
+        prims = sorted({str(x.get("v")) for c in t.calls(lambda n: n["k"] == "Call" and callee_of(n).endswith("utils::primitive_ty"), a["body"])
+                        for x in [strip(c["args"][1])] if x.get("k") == "Lit"})
+        for nm in names:
+            seen[nm] = (prims, a)
+    for nm, (prims, a) in sorted(seen.items()):
+        if nm not in want:
+            rep.bad("named-typedef:" + nm, "`%s` is mapped to %s by name but is not in oracle/c_types.json named_typedefs" % (nm, prims), t.loc(a["body"]))
+            continue
+        rep.check(prims == [want[nm]], "named-typedef:" + nm, "`%s` -> %s (C: %s)" % (nm, prims, want[nm]), t.loc(a["body"]))
+    rep.need(len(seen) >= 13, "rows of the type_from_named table")
